@@ -6,7 +6,7 @@ import pattern as P
 import rlpclass
 import shapes
 from common import short
-from kernel import ok_payload, same_value, strip
+from kernel import ok_payload, payload_base, same_value, strip
 from rules.c01 import ret_exprs
 from rules.tables import const_key, typed_calls, value_class_of_expr
 from rules.typestate import const_int, value_is_rlp_of
@@ -265,28 +265,43 @@ def readers_rule(ctx, report, rule="READ"):
                     good_body = bexp.k == "call" and bexp.a[0].name == "decode" and (bexp.a[0].trait or "").endswith("Decodable") and any(x.k == "closure-arg" for x in bexp.walk())
                 ok = g.k == "call" and g.a[0].target() == "Enr::<K>::get_raw_rlp" and strip(g.a[1][0]).k == "param" and strip(g.a[1][1]).k == "param" and good_body
         report.check(rule, "get_decodable", ok, "get_decodable::<T>(key) = get_raw_rlp(key).map(T::decode)", "get_decodable is not T::decode of the raw value of the requested key", fn=f.path, sp=f.span, config=cfg)
-    # ports
+    # ports: the Some payload is the doubly-unwrapped get_decodable::<u16>(KEY), everything else is None
     for path, key in PORT_GETTERS.items():
         f = fn_or_violate(ctx, report, rule, path)
         if f is None:
             continue
         an = ctx.an(f)
-        rets = ret_exprs(an)
-        ok = False
-        why = "unrecognised shape"
-        if len(rets) == 1:
-            es = strip(rets[0][2])
-            inner = None
-            if es.k == "call" and es.a[0].name == "and_then" and len(es.a[1]) == 2:
-                fnarg = strip(es.a[1][1])
-                if fnarg.k == "const" and isinstance(fnarg.a[0], tuple) and fnarg.a[0][0] == "fn" and fnarg.a[0][1].endswith("::ok"):
-                    inner = strip(es.a[1][0])
-            if inner is not None and inner.k == "call" and inner.a[0].target() == "Enr::<K>::get_decodable":
-                targs = [t["s"] for t in inner.a[0].targs]
-                k = const_key(inner.a[1][1])
-                ok = k == key and len(targs) > 1 and targs[1] == "u16" and strip(inner.a[1][0]).k == "param"
-                why = "reads key %r as %s" % (k, targs[1] if len(targs) > 1 else "?")
-        report.check(rule, f.name, ok, "%s() = get_decodable::<u16>(%r), failure -> None" % (f.name, key.decode()), "%s() must read %r as a canonical u16: %s" % (f.name, key.decode(), why), fn=f.path, sp=f.span, config=cfg)
+        good = 0
+        bad = []
+        for bb, idx, e, node in ret_exprs(an):
+            es = strip(e)
+            alts = es.a[0] if es.k == "phi" else [es]
+            for a in alts:
+                a = strip(a)
+                src = None
+                if a.k == "agg" and a.a[0].endswith("Option::None"):
+                    continue
+                if a.k == "call" and a.a[0].name == "from_residual":
+                    continue
+                if a.k == "call" and a.a[0].name == "and_then" and len(a.a[1]) == 2:
+                    fnarg = strip(a.a[1][1])
+                    if fnarg.k == "const" and isinstance(fnarg.a[0], tuple) and fnarg.a[0][0] == "fn" and fnarg.a[0][1].endswith("::ok"):
+                        src = strip(a.a[1][0])
+                elif a.k == "agg" and a.a[0].endswith("Option::Some"):
+                    base, n = payload_base(a.a[1]["0"])
+                    if n == 2:
+                        src = strip(base)
+                if src is not None and src.k == "call" and src.a[0].target() == "Enr::<K>::get_decodable":
+                    targs = [t["s"] for t in src.a[0].targs]
+                    k = const_key(src.a[1][1])
+                    if k == key and len(targs) > 1 and targs[1] == "u16" and strip(src.a[1][0]).k == "param":
+                        good += 1
+                        continue
+                    bad.append("reads key %r as %s" % (k, targs[1] if len(targs) > 1 else "?"))
+                else:
+                    bad.append("returns %s" % short(a, 100))
+        report.check(rule, f.name, good >= 1 and not bad, "%s() = get_decodable::<u16>(%r), failure -> None" % (f.name, key.decode()),
+                     "%s() must read %r as a canonical u16: %s" % (f.name, key.decode(), "; ".join(bad) or "no successful return"), fn=f.path, sp=f.span, config=cfg)
     # addresses
     for path, (key, n, tyname) in IP_GETTERS.items():
         f = fn_or_violate(ctx, report, rule, path)
@@ -402,6 +417,17 @@ def ip_getter(ctx, f, key, n, tyname):
         es = strip(e)
         if es.k == "agg" and es.a[0].endswith("Option::None"):
             continue
+        # idiom 2: <[u8; N]>::try_from(bytes).ok().map(IpvNAddr::from) - exact length by the array conversion
+        if es.k == "call" and es.a[0].name == "map" and len(es.a[1]) == 2:
+            fnarg = strip(es.a[1][1])
+            inner = strip(es.a[1][0])
+            if fnarg.k == "const" and isinstance(fnarg.a[0], tuple) and tyname in fnarg.a[0][1] and fnarg.a[0][1].endswith("::from"):
+                if inner.k == "call" and inner.a[0].name == "ok" and inner.a[1]:
+                    tf = strip(inner.a[1][0])
+                    if tf.k == "call" and tf.a[0].name == "try_from" and ("[u8; %d]" % n) in tf.a[0].full and any(c.k == "call" and c.a[0].name == "get_decodable" for c in tf.walk()):
+                        somes += 1
+                        continue
+            return False, "returns %s" % short(es, 120)
         if not (es.k == "agg" and es.a[0].endswith("Option::Some")):
             return False, "returns %s" % short(es, 100)
         v = strip(es.a[1]["0"])
@@ -470,6 +496,13 @@ def client_info_reader(ctx, report, rule):
                     c = strip(cond)
                     if c.k == "call" and c.a[0].name == "len" and len(allowed) == 1 and isinstance(list(allowed)[0], int):
                         ln = list(allowed)[0]
+                    # slice patterns: PtrMetadata(slice) == n
+                    if c.k == "binop" and c.a[0] == "Eq" and ("otherwise" in allowed or 1 in allowed) and 0 not in allowed:
+                        sides = [strip(c.a[1]), strip(c.a[2])]
+                        meta = [x for x in sides if x.k == "unop" and x.a[0] == "PtrMetadata"]
+                        cst = [const_int(x) for x in sides if const_int(x) is not None]
+                        if meta and cst:
+                            ln = cst[0]
                 idxs = []
                 for k2 in ("0", "1", "2"):
                     comp = strip(tup.a[1][k2]) if tup.k == "agg" and k2 in tup.a[1] else None
@@ -486,6 +519,8 @@ def client_info_reader(ctx, report, rule):
                             ci = const_int(c.a[1][1])
                             if ci is not None:
                                 found = ci
+                        if c.k == "cindex" and not c.a[3]:
+                            found = c.a[1]
                     idxs.append(found)
                 arms[ln] = idxs
         ok = arms == {2: [0, 1, None], 3: [0, 1, 2]}
